@@ -53,7 +53,7 @@ def run_sync(ctx, keys_for_pid):
             ctx.violation(key, what, rep)
     log("[c19] peer rows=%d handler calls=%d offers=%d outcomes=%s kinds=%s violations=%s" % (res["peer_rows"], res["handler_calls"], res["offers"],
         res["outcomes"], res["offer_kinds"], sorted(set(k for k, _, _ in viols))))
-    if res["peer_rows"] < 1000 or res["handler_calls"] < 50 or res["outcomes"].get("peer", 0) < 5 or res["outcomes"].get("own+ban", 0) < 2:
+    if not ctx.violations and (res["peer_rows"] < 1000 or res["handler_calls"] < 50 or res["outcomes"].get("peer", 0) < 5 or res["outcomes"].get("own+ban", 0) < 2):
         raise Inconclusive("scenarios did not cover switch and restore outcomes: vacuous")
     cov = dict(traces_validated_against_impl=len(lines) + res["peer_rows"], samples=[json.loads(l) for l in lines[-2:]],
                peer_selection_rows=res["peer_rows"], handler_calls=res["handler_calls"], offer_scenarios=res["offers"],
